@@ -166,6 +166,15 @@ fn run_pair(line: &[&str], uni: &[&'static Metadata<'static>]) -> String {
 
 fn run_case(line: &[&str], uni: &[&'static Metadata<'static>]) -> String {
     if line[0] == "W" { return run_pair(line, uni); }
+    if line[0] == "H" {
+        // `H <stack>`: the max level the stack publishes (as the macros read it: LevelFilter::current(), this dispatcher being the
+        // only live one), rank 0 (OFF) … 5 (TRACE; also "no hint")
+        if line[1..].iter().all(|t| ["none", "empty", "(", ")", "@box", "@arc"].contains(t)) { return "-".into(); }
+        let d = build_stack(&line[1..]);
+        let r = match tracing_core::LevelFilter::current().into_level() { None => 0, Some(l) => rank(&l) };
+        drop(d);
+        return format!("h:{}", r);
+    }
     if line[0] == "N" {
         // `N <stack> ;; ops`: the full notification log of one stack
         let sep = line.iter().position(|t| *t == ";;").expect(";;");
